@@ -37,7 +37,17 @@ where
         .map_err(Box::from)
         .context(BuildChunkSnafu)?;
 
-    let length = data.len() as u32;
+    let length = u32::try_from(data.len())
+        .map_err(|_| {
+            std::io::Error::new(
+                std::io::ErrorKind::InvalidInput,
+                format!(
+                    "chunk of {} bytes does not fit in a u32 length field",
+                    data.len()
+                ),
+            )
+        })
+        .context(WriteLengthSnafu)?;
     writer
         .write_u32::<BigEndian>(length)
         .context(WriteLengthSnafu)?;
@@ -56,7 +66,17 @@ where
         .map_err(Box::from)
         .context(BuildChunkSnafu)?;
 
-    let length = data.len() as u16;
+    let length = u16::try_from(data.len())
+        .map_err(|_| {
+            std::io::Error::new(
+                std::io::ErrorKind::InvalidInput,
+                format!(
+                    "chunk of {} bytes does not fit in a u16 length field",
+                    data.len()
+                ),
+            )
+        })
+        .context(WriteLengthSnafu)?;
     writer
         .write_u16::<BigEndian>(length)
         .context(WriteLengthSnafu)?;
